@@ -474,7 +474,13 @@ class Known:
         """Update from one applied op (`before_names`: channel names before it)."""
         new = [n for n in seq._schedule if n not in before_names]
         if op["k"] == "detmap" and status == "ok":
-            for n in new:
+            # the map's own channel is the one declared last; with a mask pending (config_slm_mask was the first
+            # call of the sequence) entering Ising mode declares the mask's DMM first
+            for n in new[:-1]:
+                if n.startswith("dmm_") and self.mask is not None:
+                    nq = len(seq.register.qubit_ids)
+                    self.weights[n] = [1.0 if i in self.mask else 0.0 for i in range(nq)]
+            for n in new[-1:]:
                 self.weights[n] = [float(x) for x in op["weights"]]
         elif new and self.mask is not None:
             # the DMM of an Ising SLM mask: weight 1 on the masked atoms, 0 elsewhere (config_slm_mask doc)
